@@ -30,7 +30,7 @@ def scan_harness(raw):
         return None
     one = bool(raw["return_at_most_one_ranking"])
     perms = list(itertools.islice(itertools.permutations(range(4)), n))
-    tables = [raw["scores"]] if raw.get("scores") is not None else list(itertools.product([1., 2., 3.], repeat=n))[:250]
+    tables = [raw["scores"]] if raw.get("scores") is not None else list(itertools.product([0., 1., 2.], repeat=n))[:250]
     envs = []
     for table in tables:
         ds = Dataset([Ranking([{e} for e in p]) for p in perms])
@@ -51,7 +51,7 @@ def gen_scan(rng):
     n = rng.randint(1, 5)
     ids = rng.sample(range(20), n)
     return {"rankings_to_use": ids, "dataset": None, "scoring_scheme": None,
-            "return_at_most_one_ranking": rng.random() < 0.5, "scores": [float(rng.randint(1, 3)) for _ in range(n)]}
+            "return_at_most_one_ranking": rng.random() < 0.5, "scores": [float(rng.randint(0, 3)) for _ in range(n)]}
 
 
 def register(reg):
